@@ -998,7 +998,10 @@ def oracle_gather(evs, meta):
     items = len(ips) * ncomp * ((1 if stun else 0) + len(turns))
     # 4xRTO per round of a transaction, pacing, "late" answers, round trips.  Rounds: the request, one authenticated retry after 401, and - with a server
     # that answers 438 (stale nonce) - one more retry with the new nonce, each with its own retransmission budget under loss
-    rounds = 3 if any("438" in (m or "") for m in [stun] + list(meta.get("turns2") or turns)) else 2
+    allm = [stun] + list(meta.get("turns2") or turns)
+    rounds = 3 if any("438" in (m or "") for m in allm) else 2
+    if any("300" in (m or "") for m in allm):
+        rounds = 6      # up to NICE_DISCOVERY_MAX_REDIRECTS (5) redirections, each a transaction of its own with its own retransmissions under loss
     bound = 2000 * rounds + 40 * items + 2000 + 6 * 300
     phases = []
     for k, g in enumerate(gathers):
